@@ -180,6 +180,19 @@ func (m *MonC11) OnPassEnd(w *World, p *Pass) {
 			}
 		}
 	}
+	if !reported && bad[firstBad] != "" {
+		// a pass that found the violation again and left the stored report as it was (no status write at
+		// all) has reported it just the same: the retry is owed for as long as the violation stands
+		wrote := false
+		for _, r := range p.Reqs {
+			if r.Verb == "update-status" {
+				wrote = true
+			}
+		}
+		if c := FindCond(owner, "Available"); !wrote && c != nil && c.Status == "False" && c.Reason == "PreflightError" {
+			reported = true
+		}
+	}
 	if !reported {
 		// an earlier phase may legitimately stop the pass (probe failure / collision) before the bad phase
 		return
